@@ -20,7 +20,7 @@ RULE = ("design level: HeaderLineCheck (TLC) -- Parse(Format(f, pads), sec) = Ex
 MN = ["A", "STRT", "MN EM", "a1", "é", "X-1", "Q_", "Ωm"]
 UN = ["", "m", "us/ft", "m.s", "hh:mm", "%", "Ω", "1/m", "k.g.s", "a:b", "[m]", "(ft)", "g/cm3", "°C"]
 VA = ["", "v", "12", "03", "run 21", "-7.5", "two words", "[x]", "(y)", "he \"q\"", "a.b", "1.5", "x/y", "hh", "at HH", "it's",
-      "1,5", "1e5", "№ 5", "21", "23"]
+      "1,5", "1e5", "№ 5", "21", "23", "1500..2500", "Gel Chem.."]
 DE = ["", "d", "two words", "[b] (p)", "d.e", "1 first", "'q'", "déjà vu"]
 DC = ["Time Logger: At Bottom", "a: b: c", "x : y"]
 PADS = ["", " ", "   ", "\t", " \t "]
@@ -83,7 +83,7 @@ def run(ctx):
                     p[2] = " "
                 if re.fullmatch(r"\d+", u):
                     continue
-                if sec == "Curves" and ".." in (m + p[1] + "." + u):
+                if sec == "Curves" and (".." in (m + p[1] + "." + u) or ".." in v):
                     continue
                 check(m, u, v, d, p, sec)
         for v in tvals:
